@@ -1,7 +1,8 @@
 //! C23 — the REPL accumulates state like one program; rejected lines have no effect.
 //! Every history of lines over a small alphabet is one run of the real `run_prompt` loop (scripted line
-//! source hook); the oracle is differential, as the statement is phrased: line n must print what the
-//! script "all earlier accepted lines (each up to its first runtime error) + line n" leaves as its value.
+//! source hook) fed with exactly those lines and nothing else; the oracle is differential, as the statement
+//! is phrased: line n must print what the script "all earlier accepted lines (each up to its first runtime
+//! error) + line n" leaves as its value.
 
 use crate::fw::*;
 use crate::subject::*;
@@ -20,6 +21,7 @@ const LINES: &[(&str, &str)] = &[
     ("h()", ""),
     ("let len = 5", ""), // shadows a builtin
     ("len", ""),
+    ("\"zz\"", ""), // a line that only adds a constant
     // -- the rest only in the full alphabet
     ("let x = 2", ""),
     ("let a = [x, \"s\"]; a", ""),
@@ -30,8 +32,7 @@ const LINES: &[(&str, &str)] = &[
     ("q", ""),
     ("fn f() { 99 }", ""),
 ];
-const CORE: usize = 11;
-const SENTINEL: &str = "eprintln(\"#S#\"); println(\"#S#\"); null;";
+const CORE: usize = 12;
 
 pub struct P23 {
     cases: Vec<Vec<usize>>,
@@ -60,8 +61,16 @@ impl P23 {
     }
 }
 
-fn split_sentinel(s: &str) -> Vec<String> {
-    s.split("#S#\n").map(|x| x.to_string()).collect()
+/// what the model expects of one line
+enum Expect {
+    /// rejected by the parser: any number of lines ending with "<n> parse errors"
+    ParseErr,
+    /// rejected by the compiler: one line on stderr
+    CompileErr,
+    /// accepted: this echo on stdout ("" or one line), nothing on stderr
+    Value(String),
+    /// stops at run time: one line on stderr carrying this message, nothing on stdout
+    RtErr(String),
 }
 
 impl Property for P23 {
@@ -76,11 +85,10 @@ impl Property for P23 {
     }
     fn run(&self, idx: u64) -> CaseOut {
         let hist = &self.cases[idx as usize];
+        // exactly the lines of the history: nothing is interleaved that could itself change the REPL's state
         let mut input = String::new();
         for l in hist {
             input.push_str(LINES[*l].0);
-            input.push('\n');
-            input.push_str(SENTINEL);
             input.push('\n');
         }
         let o = run_bin(&[], input.as_bytes(), &[("P2SH_VERIF_REPL_STDIN", "1")], 20);
@@ -94,56 +102,81 @@ impl Property for P23 {
             Some(b) => b.to_string(),
             None => return CaseOut::viol("MACHINERY", format!("MACHINERY: no REPL banner in {:?}", out)),
         };
-        let outs = split_sentinel(&body);
-        let errs = split_sentinel(&o.err_s());
-        if outs.len() != hist.len() + 1 || errs.len() != hist.len() + 1 {
-            return CaseOut::viol(
-                "lost sync",
-                format!("after {:?} a harmless line (a print of a marker) was not executed normally: stdout {:?} stderr {:?}", lines_txt, one_line(&body, 300), one_line(&o.err_s(), 300)),
-            );
-        }
+        let body = match body.strip_suffix("\nExiting...\n") {
+            Some(b) => b.to_string(),
+            None => return CaseOut::viol("MACHINERY", format!("MACHINERY: no REPL trailer in {:?}", out)),
+        };
+        let err_text = o.err_s();
+        let mut out_lines = body.lines().peekable();
+        let mut err_lines = err_text.lines().peekable();
         // the model: the script of everything accepted so far
         let mut effective = String::new();
         let mut states = 0;
         for (n, l) in hist.iter().enumerate() {
             let (line, rt_rest) = LINES[*l];
             let src = format!("{}{}\n", effective, line); // earlier lines end in ";"
-            let got_out = outs[n].clone();
-            let got_err = errs[n].clone();
             let r = run_src(&src);
             states += 1;
-            let ctx = || format!("line {} of {:?} (script of the accepted lines so far: {:?})", n + 1, lines_txt, one_line(&effective, 300));
-            match r.outcome {
-                Outcome::ParseErr | Outcome::CompileErr => {
-                    if !got_out.is_empty() || got_err.is_empty() {
-                        return CaseOut::viol(
-                            "rejected-line accepted",
-                            format!("{}: the script with this line appended is rejected, but the REPL printed {:?} / {:?}", ctx(), one_line(&got_out, 100), one_line(&got_err, 100)),
-                        );
-                    }
-                }
+            let ctx = |effective: &str| format!("line {} of {:?} (script of the accepted lines so far: {:?})", n + 1, lines_txt, one_line(effective, 300));
+            let exp = match r.outcome {
+                Outcome::ParseErr => Expect::ParseErr,
+                Outcome::CompileErr => Expect::CompileErr,
                 Outcome::Value(_) => {
                     let mut vm = r.vm.unwrap();
                     let v = vm.last_popped();
                     // as in command mode (C24): the echo is the value of the line's final expression statement
                     let ends_in_expr = matches!(parse_only(line).0.statements.last(), Some(crate::parser::ast::stmt::Statement::Expr(_)));
-                    let exp = if !ends_in_expr || matches!(v.as_ref(), crate::object::Object::Null) { String::new() } else { format!("{}\n", v) };
-                    if got_out != exp || !got_err.is_empty() {
-                        let class = if !got_err.is_empty() { "accepted-line rejected" } else { "different value" };
+                    Expect::Value(if !ends_in_expr || matches!(v.as_ref(), crate::object::Object::Null) { String::new() } else { format!("{}", v) })
+                }
+                Outcome::RtErr(msg, _) => Expect::RtErr(msg),
+            };
+            match exp {
+                Expect::ParseErr => {
+                    let mut ok = false;
+                    while let Some(e) = err_lines.next() {
+                        if e.ends_with("parse errors") || e.ends_with("parse error") {
+                            ok = true;
+                            break;
+                        }
+                    }
+                    if !ok {
+                        return CaseOut::viol("rejected-line accepted", format!("{}: the parser rejects this line, but the REPL reported no parse errors: stdout {:?} stderr {:?}", ctx(&effective), one_line(&body, 200), one_line(&err_text, 200)));
+                    }
+                }
+                Expect::CompileErr => match err_lines.next() {
+                    Some(e) if e.contains("compile error") => {}
+                    other => {
                         return CaseOut::viol(
-                            class,
-                            format!("{}: the REPL printed {:?} (stderr {:?}); at the end of the script the line prints {:?}", ctx(), one_line(&got_out, 100), one_line(&got_err, 150), one_line(&exp, 100)),
-                        );
+                            "rejected-line accepted",
+                            format!("{}: the script with this line appended is rejected by the compiler, but the REPL's next diagnostic is {:?} (stdout so far {:?})", ctx(&effective), other, one_line(&body, 200)),
+                        )
+                    }
+                },
+                Expect::Value(echo) => {
+                    // (a diagnostic wrongly printed for this line shows up as a leftover or a mismatch further on)
+                    if !echo.is_empty() {
+                        match out_lines.next() {
+                            Some(g) if g == echo => {}
+                            other => {
+                                return CaseOut::viol(
+                                    "different value",
+                                    format!("{}: the REPL printed {:?}; at the end of the script the line prints {:?} (whole stdout {:?}, stderr {:?})", ctx(&effective), other, echo, one_line(&body, 200), one_line(&err_text, 200)),
+                                )
+                            }
+                        }
                     }
                     effective.push_str(line.trim_end_matches(';'));
                     effective.push_str(if line.ends_with('}') { "\n" } else { ";\n" });
                 }
-                Outcome::RtErr(msg, _) => {
-                    if !got_out.is_empty() || !got_err.contains(&msg) {
-                        return CaseOut::viol(
-                            "runtime-error line",
-                            format!("{}: the script stops with {:?}; the REPL printed {:?} / {:?}", ctx(), msg, one_line(&got_out, 100), one_line(&got_err, 150)),
-                        );
+                Expect::RtErr(msg) => {
+                    match err_lines.next() {
+                        Some(e) if e.contains("Runtime error") && e.contains(&msg) => {}
+                        other => {
+                            return CaseOut::viol(
+                                "runtime-error line",
+                                format!("{}: the script stops with {:?}; the REPL's next diagnostic is {:?} (stdout {:?})", ctx(&effective), msg, other, one_line(&body, 200)),
+                            )
+                        }
                     }
                     if !rt_rest.is_empty() {
                         effective.push_str(rt_rest.trim_end_matches(';'));
@@ -152,11 +185,18 @@ impl Property for P23 {
                 }
             }
         }
+        // nothing may be left over on either stream
+        if let Some(x) = out_lines.next() {
+            return CaseOut::viol("different value", format!("{:?}: the REPL printed {:?} on stdout beyond what the script prints (whole stdout {:?}, stderr {:?})", lines_txt, x, one_line(&body, 200), one_line(&err_text, 200)));
+        }
+        if let Some(x) = err_lines.next() {
+            return CaseOut::viol("accepted-line rejected", format!("{:?}: the REPL printed the diagnostic {:?} although every remaining line is accepted by the script (stdout {:?}, stderr {:?})", lines_txt, x, one_line(&body, 200), one_line(&err_text, 200)));
+        }
         let class = format!("accepted={}", effective.lines().count().min(4));
         CaseOut::pass(class).with_counts(states, hist.len() as u64, 1)
     }
     fn rule(&self) -> String {
-        format!("line alphabet {:?} (the first {} form the core); histories: every sequence of exactly 2 (thorough 3) lines over the full alphabet and of exactly 3 (thorough 4) lines over the core (prefixes are checked on the way), thorough adds 12-line histories with every pair of lines at two positions; each history is one run of the real run_prompt loop through the scripted line source, a marker line (prints on both streams, value null) after every line delimits the per-line output; oracle per line n: compile and run, in-process with the same compiler and VM, the script made of the accepted lines so far (a line that failed at run time contributes its statements before the failure) plus line n: rejected => the REPL must print nothing on stdout and something on stderr, and the line contributes nothing; value v => stdout is exactly v's display text when the line ends in an expression statement and v is not null (the echo rule of command mode), nothing otherwise, and stderr is empty; runtime error => stderr carries the same message", LINES.iter().map(|l| l.0).collect::<Vec<_>>(), CORE)
+        format!("line alphabet {:?} (the first {} form the core); histories: every sequence of exactly 2 (thorough 3) lines over the full alphabet and of exactly 3 (thorough 4) lines over the core (prefixes are checked on the way), thorough adds 12-line histories with every pair of lines at two positions; each history is one run of the real run_prompt loop through the scripted line source, fed with exactly these lines (no marker lines: an interleaved line would itself be an accepted line and could repair the very state under test); oracle per line n: compile and run, in-process with the same compiler and VM, the script made of the accepted lines so far (a line that failed at run time contributes its statements before the failure) plus line n: the two output streams are consumed in order — rejected by the parser => diagnostics up to '<n> parse errors' on stderr; rejected by the compiler => exactly one 'compile error' line; value v => v's display text as the next stdout line when the line ends in an expression statement and v is not null (the echo rule of command mode), nothing otherwise; runtime error => one 'Runtime error' line with the same message; nothing may be left over on either stream", LINES.iter().map(|l| l.0).collect::<Vec<_>>(), CORE)
     }
     fn bounds(&self) -> Value {
         json!({"histories": self.cases.len(), "alphabet": LINES.len(), "core": CORE})
@@ -165,6 +205,7 @@ impl Property for P23 {
         vec![
             "lines reach run_prompt through the cfg(p2sh_verif) scripted line source; the interactive editor (continuation lines, history, completion) is not driven".into(),
             "a name bound by a statement after the failing statement of a line is never read (the script of the statement has no such binding)".into(),
+            "every echo of the alphabet is a single line, so stdout lines map to lines of the history in order".into(),
         ]
     }
     fn horizon_secs(&self) -> u64 {
